@@ -143,7 +143,7 @@ impl Point2DKalmanFilter {
             } else {
                 distance
             }
-        } else if distance > CHI2INV95[4] {
+        } else if distance > CHI2INV95[1] {
             0.0
         } else {
             CHI2_UPPER_BOUND - distance
